@@ -222,10 +222,7 @@ func (cs *complexShaperUSE) setupTopographicalMasks(plan *otShapePlan, buffer *B
 
 func (cs *complexShaperUSE) setupSyllablesUse(plan *otShapePlan, _ *Font, buffer *Buffer) bool {
 	findSyllablesUse(buffer)
-	iter, count := buffer.syllableIterator()
-	for start, end := iter.next(); start < count; start, end = iter.next() {
-		buffer.unsafeToBreak(start, end)
-	}
+	syllabicUnsafeToBreak(buffer)
 	cs.setupRphfMask(buffer)
 	cs.setupTopographicalMasks(plan, buffer)
 	return false
